@@ -76,7 +76,8 @@ CHECKS = {
    technique='Coq proofs about regex-matcher models + extracted-model correspondence (writer trees, reader values) + round-trip search',
    design='DESIGN.md §3 C02'),
  'C05': dict(
-   text='Machine-checked proof (Coq) that the JSON reader model decodes the legal spellings beyond the writer\'s own: both Remove spellings, raw JSON numbers/booleans/null, strings without s: (second character not a colon), '
+   text='Machine-checked proof (Coq): WHOLE OBJECTS - a grid object {meta, cols, rows} (meta with a string ver member anywhere, column objects with a string name member anywhere, row objects with any members - rows may leave columns out -, rows possibly missing or null) '
+        'is read by the reader model as the grid it denotes, a member denoting the value its scalar / nested reading returns (C05_whole_object; induction over metadata members, columns, rows; nested lists / dicts / grids by C02_values). Per spelling: the JSON reader model decodes the legal spellings beyond the writer\'s own: both Remove spellings, raw JSON numbers/booleans/null, strings without s: (second character not a colon), '
         'times without seconds, n:INF/-INF/NaN, numbers with and without unit; further clauses as evaluated examples. Tied by the reader model vs hszinc.parse on documents of an independent grammar-directed writer '
         '(value x independently chosen spelling, 4 input forms) and on 56 odd/malformed spellings.',
    note='Missing and null `rows` are proved to denote no rows (C05_rows_missing, C05_rows_null). PARTIAL: exponent forms, fractions of other lengths and Z date-times are not proved, only exercised. '
@@ -85,7 +86,7 @@ CHECKS = {
    technique='Coq proofs about regex-matcher models + correspondence on independently written documents',
    design='DESIGN.md §3 C05'),
  'C06': dict(
-   text='Machine-checked proof (Coq) about the JSON writer model: a dumped grid is {meta:{..,ver}, cols:[..], rows:[..]} in that order with ver present, every scalar kind carries its type prefix and its payload verbatim / in isoformat, '
+   text='Machine-checked proof (Coq) about the JSON writer model: a dumped grid is {meta:{..,ver}, cols:[..], rows:[..]} in that order with ver present, one column object per column in order each carrying its name, one row object per row each with exactly one member per column in column order (C06_object_pieces, induction over columns and rows), every scalar kind carries its type prefix and its payload verbatim / in isoformat, '
         'non-finite numbers are n:INF, n:-INF, n:NaN, 3.0-only kinds are refused under a pre-3.0 version. Tied by exact tree equality with json.loads(hszinc.dump()); the search checks JSON validity, shape, per-kind lexical form and an independent spec-derived reader.',
    note='PARTIAL: conformance against a grammar relation is not proved in Coq; the independent reader (harness/jsonsim.spec_read, written from the Haystack JSON description, shares no code with hszinc) is harness code. '
         'Print Assumptions: closed under the global context.',
@@ -122,7 +123,7 @@ CHECKS = {
    design='DESIGN.md §3 C04'),
  'C07': dict(
    text='Machine-checked proof (Coq): WHOLE GRIDS IN BOTH FORMATS - a metadata-free 3.0 grid whose cells are strings, URIs, markers, nulls, booleans, NA, Remove or lists / dicts of those comes back as the same grid from the ZINC text and from the JSON object '
-        '(C07_grid_both_formats: reader model after writer model is the identity in either format, so parsing one format and dumping the other loses nothing on such grids). PARTIAL beyond that: on text (every code-point list as Str and Uri) each format\'s reader after its writer is the identity, both writers are total, hence any chain of transcodings is lossless '
+        '(C07_grid_both_formats; in general, with grid and column metadata, nested lists / dicts / grids and every kind both value relations cover: C07_grid_both_formats_general - reader model after writer model is the identity in either format, so parsing one format and dumping the other loses nothing on such grids). PARTIAL beyond that: on text (every code-point list as Str and Uri) each format\'s reader after its writer is the identity, both writers are total, hence any chain of transcodings is lossless '
         'and parse-then-dump is idempotent character for character. All other kinds, parser-made objects (fixed-offset tzinfo, non-official versions), purity and determinism of dump are decided by the search on the implementation: '
         'documents of the independent ZINC and JSON writers pushed through parse -> dump (both formats) -> parse -> dump, ZINC->JSON->ZINC and JSON->ZINC->JSON, deep snapshot before / after, two dumps compared.',
    note='PARTIAL (see text). Values a JSON document can carry but ZINC cannot spell (Bin payload / unit / Ref name outside the ZINC alphabets) are outside the shared Haystack value domain and are skipped (counted in the evidence). '
@@ -175,8 +176,8 @@ CHECKS = {
         'absent tag, null cell, dangling reference and a step through a plain value are all "not found", a valid reference continues in the row whose id matches. '
         'Tied by (a) AST, generated Python source (character for character) and literal tuple of the model of the pyparsing grammar vs parse_filter / _generate_filter_in_python on every generated and on malformed texts, '
         '(b) the rows the extracted model selects vs grid.filter on grids of abstract valuations, with Python\'s comparison as the oracle. The search compares grid.filter with an independent evaluator over the generator\'s own AST.',
-   note='The grammar clause is proved too (C11_grammar): for every filter over presence atoms and comparison atoms (any of the six operators; literal a boolean, an unsigned digit run or ANY string in its escaped spelling), of any size and nesting, the parser model inverts the printer - and binds tighter than or, both fold to the left over any number of operands, parentheses override, keywords only at word boundaries. '
-        'PARTIAL: that theorem covers single-tag paths and single-blank spacing; other literal kinds, multi-step paths and spacing variation rest on the tie (exhaustive ASTs with <= 2 connectives + random, each rendered with spacing / parenthesis variation). '
+   note='The grammar clause is proved too (C11_grammar): for every filter over presence atoms and comparison atoms on PATHS tag->tag->... of any length (any of the six operators; literal a boolean, an unsigned digit run or ANY string in its escaped spelling), of any size and nesting, the parser model inverts the printer - and binds tighter than or, both fold to the left over any number of operands, parentheses override, keywords only at word boundaries. '
+        'PARTIAL: that theorem covers single-blank spacing and lower-case tag names; other literal kinds and spacing variation rest on the tie (exhaustive ASTs with <= 2 connectives + random, each rendered with spacing / parenthesis variation). '
         'The parser model covers numbers, quantities, strings, URIs, references, booleans, N, M, NA, INF, NaN; dates, times, coordinates, Bin, XStr, lists are exercised by the search only. CPython executing the generated source is trusted (the source text is compared). '
         'Python\'s comparison of two values is an oracle (C19 / C20 model parts of it). Null cells count as absent (fix 30fb0ca). Print Assumptions: closed under the global context.',
    technique='Coq compiler-correctness proof (induction over the AST, literal-tuple threading) + loop = filter/firstn lemma + source-text and row-selection correspondence + independent evaluator',
